@@ -99,8 +99,31 @@ func BinaryNamed(moduleName string) []byte {
 		idx := m.ImportFunc("wasi_snapshot_preview1", s.name, p, r)
 		fns = append(fns, fn{idx, s, p, r})
 	}
+	// dirty(n): recursion with all-ones i64 locals kept live across the call: leaves the native stack
+	// below the caller full of values whose upper halves are set, where the engine then places the
+	// arguments of the host call (an i32 argument only defines the lower half of its slot).  The
+	// function index is known before it is added: imports come first, then dirty, then the wrappers.
+	dirtyIdx := uint32(len(fns))
+	{
+		const nl = 12
+		locals := make([]wasmb.ValType, nl)
+		c := &wasmb.Code{}
+		c.LocalGet(0).I32Eqz().If(wasmb.BlockVoid).I32Const(0).Return().End()
+		for i := range locals {
+			locals[i] = wasmb.I64
+			c.I64Const(-1).LocalGet(0).I64ExtendI32U().I64Sub().LocalSet(uint32(1 + i))
+		}
+		c.LocalGet(0).I32Const(1).I32Sub().Call(dirtyIdx)
+		for i := range locals {
+			c.LocalGet(uint32(1 + i)).I32WrapI64().I32Xor()
+		}
+		if got := m.AddFunc([]wasmb.ValType{wasmb.I32}, []wasmb.ValType{wasmb.I32}, locals, c.B, ""); got != dirtyIdx {
+			panic("wasiguest: function index layout")
+		}
+	}
 	for _, f := range fns {
 		c := &wasmb.Code{}
+		c.I32Const(6).Call(dirtyIdx).Drop()
 		for i := range f.p {
 			c.LocalGet(uint32(i))
 		}
